@@ -1,6 +1,7 @@
 """C36 Equivalent model descriptions compile to equivalent physics."""
 import ctypes as C
 import json
+import re
 import xml.etree.ElementTree as ET
 
 import numpy as np
@@ -38,10 +39,26 @@ ASSUMPTIONS = [
     "trajectories use <flag constraint='disable'/> (no limits, friction loss, equality or contact forces): the comparison is "
     "about the compiled model, and an iterative solver would amplify rounding differences to its tolerance; limits and ranges "
     "are still compared as compiled arrays (jnt_range etc.)",
-    "the integer references of tendon wraps, actuator transmissions and sensors are compared through the NAMES they resolve to; "
-    "when they point to different objects the numeric comparison of that pair is skipped (it would only restate the same fault)",
+    "the integer references of tendon wraps, actuator transmissions, sensors, explicit contact pairs, excludes, equalities and "
+    "tuples are compared through the NAMES they resolve to; when a wrap or transmission points to a different object the numeric "
+    "comparison of that pair is skipped (it would only restate the same fault), a wrongly resolved sensor is left out itself, "
+    "wrong contact pairs / equalities / tuples do not influence any compared quantity (constraints are disabled)",
+    "known findings are recognised per object and only after the mechanism is confirmed on the case at hand (stale name->index "
+    "map: stored id == id in the unfused twin; camera/light: body fused and world pose == unchanged local pose in the absorber's "
+    "frame; replicate multi-axis: <replicate> == written-out model built with euler(i*e), replica index >= 2; gravcomp: unfused "
+    "model with the absorber's gravcomp reproduces the fused forces and trajectories; compile rejections: see load_fused_twin); "
+    "everything that is not confirmed keeps a generic signature, and pairs that carry a finding are still compared in full on "
+    "the counterfactual / minimally edited twin",
     "static bodies fused into the world lose their mass (the world has none), so body_subtreemass[world] is not compared under "
     "fusestatic",
+    "frame sensors with objtype/reftype 'body' read the body's INERTIAL frame (XMLreference sensor/framepos objtype: 'body: the "
+    "inertial frame of the body'; 'xbody: the regular frame'); for a body that absorbed a fused body with mass that frame is "
+    "necessarily a different one, so those sensors are left out of fusestatic pairs (counted); xbody/geom/site/camera ones stay",
+    "implicitfast reinstates the gyroscopic derivatives for 'standalone free bodies (free joints whose body has no children)' "
+    "(doc/computation/index.rst, Gyroscopic derivatives for free bodies: 'For standalone free bodies, implicitfast and implicit "
+    "therefore compute identical updates'); fusing the static children of a floating body turns it into such a body, so the "
+    "DISCRETE update of the two spellings differs by that documented integrator rule although the dynamics are identical.  Such "
+    "fusestatic pairs (counted) are stepped with integrator=implicit in both models, where the rule makes no difference",
     "bodies removed by fusestatic and geoms removed by discardvisual are not compared (statement: 'bodies that are kept'); with "
     "fusestatic the per-body mass properties and local geom/site poses of the absorbing parent legitimately change, so only "
     "world poses, subtree masses and joint/dof/tendon/actuator arrays are compared",
@@ -57,7 +74,8 @@ TOL = {"fusestatic": 2e-5}
 CHECK_STEPS = (1, 20, 100, 200)
 
 OBJ = {"body": ("mjOBJ_BODY", "nbody"), "jnt": ("mjOBJ_JOINT", "njnt"), "geom": ("mjOBJ_GEOM", "ngeom"),
-       "site": ("mjOBJ_SITE", "nsite"), "cam": ("mjOBJ_CAMERA", "ncam"), "tendon": ("mjOBJ_TENDON", "ntendon"),
+       "site": ("mjOBJ_SITE", "nsite"), "cam": ("mjOBJ_CAMERA", "ncam"), "light": ("mjOBJ_LIGHT", "nlight"),
+       "tendon": ("mjOBJ_TENDON", "ntendon"),
        "actuator": ("mjOBJ_ACTUATOR", "nu"), "sensor": ("mjOBJ_SENSOR", "nsensor")}
 FIELDS = {
     "body": ["body_pos", "body_quat", "body_ipos", "body_mass", "body_subtreemass", "body_gravcomp", "body_invweight0"],
@@ -68,6 +86,7 @@ FIELDS = {
              "geom_rbound"],
     "site": ["site_pos", "site_quat", "site_size"],
     "cam": ["cam_pos", "cam_quat"],
+    "light": ["light_pos", "light_dir"],
     "tendon": ["tendon_length0", "tendon_invweight0", "tendon_stiffness", "tendon_damping", "tendon_frictionloss",
                "tendon_range", "tendon_lengthspring", "tendon_margin", "tendon_limited", "tendon_armature"],
     "actuator": ["actuator_gear", "actuator_gainprm", "actuator_biasprm", "actuator_dynprm", "actuator_ctrlrange",
@@ -77,7 +96,7 @@ FIELDS = {
 }
 DOF_FIELDS = ["dof_armature", "dof_damping", "dof_frictionloss", "dof_invweight0", "dof_M0"]
 FUSE_SKIP = {"body_pos", "body_quat", "body_ipos", "body_mass", "body_invweight0", "geom_pos", "geom_quat", "site_pos", "site_quat",
-             "cam_pos", "cam_quat", "body_gravcomp"}
+             "cam_pos", "cam_quat", "light_pos", "light_dir", "body_gravcomp"}
 
 
 # ---- base models --------------------------------------------------------------------------------------------------
@@ -95,7 +114,9 @@ def base_xml(mseed, kind, small=False, nofree=False):
     if kind == "fusestatic":
         # refsite=0: the rotational length of a site/refsite transmission depends on how the site orientation is split between
         # body and site (known finding C27-refsite-rotation-quaternion-order), which fusing changes
-        over.update(fixed_child=0.45, static_geoms=0.8, sensors=0, refsite=0.0)
+        # sensors (frame sensors on bodies/geoms/sites/cameras), geom wraps and lights are on: their references and poses are what
+        # fusing re-indexes / re-frames (audit B5: coverage gap)
+        over.update(fixed_child=0.45, static_geoms=0.8, sensors=4, refsite=0.0, tendon_wrap=0.3, lights=0.3)
     if small:
         over.update(nbody=(1, 4), ntree=(1, 2))
     if nofree:
@@ -108,8 +129,66 @@ def base_xml(mseed, kind, small=False, nofree=False):
             if g.get("type") != "plane" and rng.random() < 0.45:
                 g.set("contype", "0")
                 g.set("conaffinity", "0")
+    if kind == "fusestatic":
+        add_fuse_references(root, np.random.default_rng(mseed ^ 0x5F5E100))
     # model.gen writes euler angles for the default sequence: keep the numbers, they are just a different rotation
     return ET.tostring(root, encoding="unicode")
+
+
+def add_fuse_references(root, rng):
+    """fusestatic base models: name the lights, and add the referencing elements the generator profile does not produce --
+    explicit contact pairs (geom refs), a contact exclude and a joint equality (body / joint refs; bodies with joints only, a
+    referenced static body would simply not be fused), a site-based connect equality and a tuple over geoms/sites/cameras.
+    Constraints are disabled in these models (flag constraint=disable), so none of this changes the trajectories; it only adds
+    integer references that must survive the re-indexing."""
+    wb = root.find("worldbody")
+    for i, l in enumerate(wb.iter("light")):
+        l.set("name", "l%d" % i)
+    pm = rw.parent_map(wb)
+
+    def body_of(el):
+        b = pm[el]
+        while b.tag not in ("body", "worldbody"):
+            b = pm[b]
+        return b
+    geoms = [g for g in wb.iter("geom") if g.get("name")]
+    sites = [x for x in wb.iter("site") if x.get("name")]
+    cams = [x for x in wb.iter("camera") if x.get("name")]
+    jbodies = [b for b in wb.iter("body") if b.get("name") and (b.find("joint") is not None or b.find("freejoint") is not None)]
+    con = root.find("contact")
+    if con is None:
+        con = ET.SubElement(root, "contact")
+    seen = set()
+    for _ in range(3):
+        if len(geoms) < 2:
+            break
+        i1, i2 = [int(x) for x in rng.choice(len(geoms), size=2, replace=False)]
+        if body_of(geoms[i1]) is body_of(geoms[i2]) or (min(i1, i2), max(i1, i2)) in seen:
+            continue
+        seen.add((min(i1, i2), max(i1, i2)))
+        ET.SubElement(con, "pair", {"name": "cp%d" % len(seen), "geom1": geoms[i1].get("name"), "geom2": geoms[i2].get("name")})
+    if len(jbodies) >= 2 and rng.random() < 0.5:
+        i1, i2 = [int(x) for x in rng.choice(len(jbodies), size=2, replace=False)]
+        ET.SubElement(con, "exclude", {"name": "ex0", "body1": jbodies[i1].get("name"), "body2": jbodies[i2].get("name")})
+    eq = root.find("equality")
+    if eq is None:
+        eq = ET.SubElement(root, "equality")
+    if len(sites) >= 2:
+        i1, i2 = [int(x) for x in rng.choice(len(sites), size=2, replace=False)]
+        if body_of(sites[i1]) is not body_of(sites[i2]):
+            ET.SubElement(eq, "connect", {"name": "eqs", "site1": sites[i1].get("name"), "site2": sites[i2].get("name")})
+    sj = [j for j in wb.iter("joint") if j.get("name") and j.get("type", "hinge") in ("hinge", "slide")]
+    if len(sj) >= 2:
+        i1, i2 = [int(x) for x in rng.choice(len(sj), size=2, replace=False)]
+        ET.SubElement(eq, "joint", {"name": "eqj", "joint1": sj[i1].get("name"), "joint2": sj[i2].get("name")})
+    els = []
+    for tag, lst in (("geom", geoms), ("site", sites), ("camera", cams)):
+        for k in range(min(2, len(lst))):
+            els.append((tag, lst[int(rng.integers(0, len(lst)))].get("name")))
+    if els:
+        tp = ET.SubElement(ET.SubElement(root, "custom"), "tuple", {"name": "tp0"})
+        for k, (tag, nm) in enumerate(els):
+            ET.SubElement(tp, "element", {"objtype": tag, "objname": nm, "prm": str(k)})
 
 
 def make_pair(c):
@@ -139,8 +218,12 @@ def make_pair(c):
             out["counts"]["combo:" + k2] = 1
         out["B"] = rw.tostring(root)
     elif kind == "replicate":
-        A, B, n, multi = rw.make_replicate_pair(root, rng)
-        out.update(A=rw.tostring(A), B=rw.tostring(B), counts=n, label="replicate-multiaxis" if multi else "replicate")
+        A, B, n, info = rw.make_replicate_pair(root, rng)
+        out.update(A=rw.tostring(A), B=rw.tostring(B), counts=n, label="replicate")
+        if info["multi"]:
+            # >= 2 non-zero Euler angles and count > 2: the finding C36-replicate-multi-axis-euler applies.  M is the written-out
+            # model with the finding's mechanism (replica i rotated by euler(i*e)): the counterfactual that must equal A
+            out.update(mech=rw.tostring(info["mech"]), suffixes=info["suffixes"])
     elif kind == "attach":
         host_world = bool(c["rseed"] % 2)
         child = rw.parse(base_xml(c["mseed"] + 7919, kind, small=True, nofree=not host_world))
@@ -288,10 +371,17 @@ def compare_models(P, mA, mB, tol, kind, wit):
     return ncmp
 
 
-def references(m):
-    """name-level view of the integer references held by tendons, actuators and sensors"""
+def references(m, raw=False):
+    """name-level view of the integer references held by tendon wraps, actuator transmissions, sensors, contact pairs, contact
+    excludes, equalities and tuples: {"<category>:<referencing element>": tuple of plain values and resolved NAMES}.
+    raw=True returns (object type, id) pairs in place of the names (used by the stale-name-map confirmation).
+    Not covered: skin bones (no skins in the generated models)."""
     out = {}
-    idname = lambda ot, i: m.name(ot, int(i)) if i >= 0 else None
+
+    def idname(ot, i):
+        if i < 0 or ot is None:
+            return None
+        return (int(ot), int(i)) if raw else m.name(ot, int(i))
     wt, wo = m["wrap_type"], m["wrap_objid"]
     for nm, t in names(m, "tendon").items():
         a, n = int(m["tendon_adr"][t]), int(m["tendon_num"][t])
@@ -311,20 +401,115 @@ def references(m):
         ot, rt = int(m["sensor_objtype"][i]), int(m["sensor_reftype"][i])
         out["sensor-object:%s" % nm] = (int(m["sensor_type"][i]), ot, idname(ot, m["sensor_objid"][i]) if ot > 0 else None,
                                         rt, idname(rt, m["sensor_refid"][i]) if rt > 0 else None)
+    # explicit contact pairs: the compiler may store the two geoms in either order (sorted by body id) -> unordered
+    for i in range(m.n("npair")):
+        nm = m.name(E.mjOBJ_PAIR, i)
+        if nm:
+            g = [int(m["pair_geom1"][i]), int(m["pair_geom2"][i])]
+            g.sort(key=lambda j: repr(m.name(E.mjOBJ_GEOM, j)))
+            out["contact-pair:%s" % nm] = tuple(idname(E.mjOBJ_GEOM, j) for j in g)
+    for i in range(m.n("nexclude")):
+        nm = m.name(E.mjOBJ_EXCLUDE, i)
+        if nm:
+            sg = int(m["exclude_signature"][i])
+            b = [sg >> 16, sg & 0xFFFF]
+            b.sort(key=lambda j: repr(m.name(E.mjOBJ_BODY, j)))
+            out["exclude:%s" % nm] = tuple(idname(E.mjOBJ_BODY, j) for j in b)
+    for i in range(m.n("neq")):
+        nm = m.name(E.mjOBJ_EQUALITY, i)
+        if nm:
+            ty, ot = int(m["eq_type"][i]), int(m["eq_objtype"][i])
+            o1, o2 = int(m["eq_obj1id"][i]), int(m["eq_obj2id"][i])
+            if ty in (E.mjEQ_CONNECT, E.mjEQ_WELD) and ot == E.mjOBJ_BODY:
+                # body-based connect/weld: body ids; "world" (0) is a legitimate second body
+                out["equality:%s" % nm] = (ty, ot, idname(ot, o1), idname(ot, o2))
+            else:
+                out["equality:%s" % nm] = (ty, ot, idname(ot, o1), idname(ot, o2) if o2 >= 0 else None)
+    for i in range(m.n("ntuple")):
+        nm = m.name(E.mjOBJ_TUPLE, i)
+        a, n = int(m["tuple_adr"][i]), int(m["tuple_size"][i])
+        out["tuple:%s" % nm] = tuple((int(m["tuple_objtype"][a + k]), idname(int(m["tuple_objtype"][a + k]), m["tuple_objid"][a + k]))
+                                     for k in range(n))
     return out
 
 
+STALE_MAP_TYPES = ("mjOBJ_SITE", "mjOBJ_GEOM", "mjOBJ_CAMERA", "mjOBJ_LIGHT")
+
+
+def stale_name_map_explains(mA, mB, ra_raw, rb_raw, unordered=False, wrap=False):
+    """Structural confirmation of the finding C36-fusestatic-stale-site-ids (stale name->index maps) for ONE differing reference: FuseStatic re-indexes
+    geoms/sites/cameras/lights (FuseReindex) but leaves the compiler's name->index maps of those lists as they were before fusing,
+    so a later lookup of name N returns the object that NOW sits at N's ORIGINAL index.  The original indices are those of the
+    unfused twin A.  Hence every (type, id) in B must either equal the intended object (same name as in A) or, for the four
+    re-indexed types, carry exactly A's id of the intended object; anything else is not this mechanism."""
+    stale = set(getattr(E, t) for t in STALE_MAP_TYPES)
+    hit = False
+
+    def walk(x, y):
+        nonlocal hit
+        if isinstance(x, tuple) and len(x) == 2 and all(isinstance(v, int) for v in x) and isinstance(y, tuple) and len(y) == 2 \
+                and all(isinstance(v, int) for v in y) and x[0] == y[0] and x[0] in stale | {E.mjOBJ_BODY, E.mjOBJ_JOINT,
+                                                                                             E.mjOBJ_TENDON, E.mjOBJ_XBODY}:
+            ot = x[0]
+            if mA.name(ot, x[1]) == mB.name(ot, y[1]):
+                return True                      # same object
+            if ot in stale and y[1] == x[1]:     # B kept A's index although the list was re-ordered
+                hit = True
+                return True
+            return False
+        if isinstance(x, tuple) and isinstance(y, tuple):
+            return len(x) == len(y) and all(walk(u, v) for u, v in zip(x, y))
+        return x == y
+    if wrap:
+        # (wrap type, object): the compiler derives sphere-vs-cylinder from the geom it found, so the type follows the object
+        geomwrap = (E.mjWRAP_SPHERE, E.mjWRAP_CYLINDER)
+        if ra_raw[0] != rb_raw[0] and not (ra_raw[0] in geomwrap and rb_raw[0] in geomwrap):
+            return False
+        return bool(walk(ra_raw[1], rb_raw[1]) and hit)
+    if walk(ra_raw, rb_raw) and hit:
+        return True
+    if unordered:                                # contact pairs / excludes are stored sorted by NAME: try the other pairing too
+        hit = False
+        return walk(ra_raw, tuple(reversed(rb_raw))) and hit
+    return False
+
+
 def compare_references(P, mA, mB, kind, wit):
+    """-> {category: [referencing elements that resolve to different objects]}"""
     ra, rb = references(mA), references(mB)
-    nbad = 0
+    raw = None
+    bad = {}
+    nrep = {}
     for k in ra:
-        if k in rb and ra[k] != rb[k]:
-            nbad += 1
-            if nbad <= 3:
-                P.violation("reference-points-to-other-object:%s:%s" % (kind.split("-")[0], k.split(":")[0]),
+        P.count("refs_" + k.split(":")[0])
+        if k not in rb:
+            P.violation("referencing-element-missing:%s:%s" % (kind, k.split(":")[0]), dict(wit, reference=k))
+            continue
+        if ra[k] != rb[k]:
+            cat = k.split(":")[0]
+            bad.setdefault(cat, []).append(k.split(":")[1])
+            label = kind
+            if kind == "fusestatic":
+                # listed as a known finding only when the mechanism is confirmed on this very reference
+                if raw is None:
+                    raw = references(mA, raw=True), references(mB, raw=True)
+                if not stale_name_map_explains(mA, mB, raw[0][k], raw[1][k], unordered=cat in ("contact-pair", "exclude"),
+                                               wrap=cat == "tendon-wrap"):
+                    label = "fusestatic-not-stale-name-map"
+                else:
+                    P.count("stale_name_map_confirmed")
+            nrep[(label, cat)] = nrep.get((label, cat), 0) + 1
+            if nrep[(label, cat)] <= 3:
+                P.violation("reference-points-to-other-object:%s:%s" % (label, cat),
                             dict(wit, reference=k, a=list(ra[k]), b=list(rb[k])))
     P.count("references_compared", len(ra))
-    return nbad
+    return bad
+
+
+# wrong references in these categories change lengths, moments, forces: the numeric comparison would only restate the fault.
+# Contact pairs, excludes, equalities (constraints are disabled in the generated models) and tuples have no effect on any compared
+# quantity, and a wrong sensor object only affects that sensor's own reading (which is then left out).
+DOWNSTREAM_CATS = ("tendon-wrap", "actuator-transmission")
 
 
 def init_state(m, d, seed):
@@ -344,18 +529,75 @@ def init_state(m, d, seed):
 def world_obs(m, d):
     o = {}
     for kind, pf, qf in (("body", "xpos", "xquat"), ("site", "site_xpos", None), ("geom", "geom_xpos", None),
-                         ("cam", "cam_xpos", None)):
+                         ("cam", "cam_xpos", None), ("light", "light_xpos", None)):
         for nm, i in names(m, kind).items():
             o[kind + ":" + nm + ":pos"] = d[pf][i].copy()
             if qf:
                 o[kind + ":" + nm + ":quat"] = d[qf][i].copy()
+            if kind == "cam":
+                o[kind + ":" + nm + ":mat"] = d["cam_xmat"][i].copy().ravel()
+            if kind == "light":
+                o[kind + ":" + nm + ":dir"] = d["light_xdir"][i].copy()
     for nm, i in names(m, "sensor").items():
         a, n = int(m["sensor_adr"][i]), int(m["sensor_dim"][i])
         o["sensor:" + nm + (":quat" if n == 4 else ":val")] = d["sensordata"][a:a + n].copy()
     return o
 
 
-def compare_traj(P, L, mA, mB, tol, kind, wit, seed, sens=1e-13):
+def standalone_free_bodies(m):
+    """names of the bodies that doc/computation 'Gyroscopic derivatives for free bodies' calls standalone free bodies: exactly one
+    joint, of free type, a 6-dof tree, no (massive) children"""
+    out = set()
+    for nm, b in names(m, "body").items():
+        if int(m["body_jntnum"][b]) != 1 or int(m["jnt_type"][int(m["body_jntadr"][b])]) != E.mjJNT_FREE:
+            continue
+        adr = int(m["jnt_dofadr"][int(m["body_jntadr"][b])])
+        if int(m["tree_dofnum"][int(m["dof_treeid"][adr])]) == 6 and float(m["body_subtreemass"][b]) == float(m["body_mass"][b]):
+            out.add(nm)
+    return out
+
+
+def fuse_classifier(P, mA, mB):
+    """fusestatic pairs: classify a differing observable.  A camera / light pose difference is the known finding
+    C36-fusestatic-camera-light-pose-reset ONLY IF (structural confirmation) (i) the body carrying it in A does not exist in B,
+    i.e. it was actually fused, and (ii) the world pose in B is exactly what the mechanism predicts: the UNCHANGED local pose of A
+    (cam_pos/cam_quat, light_pos/light_dir are re-copied from the spec after fusing) applied in the frame of the body that
+    absorbed it.  Otherwise the suffix is '<kind>-not-pose-reset' (generic).  A frame sensor attached to / referred to a camera
+    whose difference was confirmed this way only observes that camera again and is not reported a second time."""
+    bodiesB = names(mB, "body")
+    confirmed = set()
+
+    def classify(k, oa, ob, dA, dB):
+        ok_kind, nm, what = k.split(":")[0], k.split(":")[1], k.split(":")[-1]
+        if ok_kind in ("cam", "light"):
+            ia, ib = names(mA, ok_kind)[nm], names(mB, ok_kind)[nm]
+            fb = "cam_bodyid" if ok_kind == "cam" else "light_bodyid"
+            fused = mA.name(E.mjOBJ_BODY, int(mA[fb][ia])) not in bodiesB
+            hb = int(mB[fb][ib])
+            X = dB["xmat"][hb].reshape(3, 3)
+            if ok_kind == "cam":
+                pred = {"pos": dB["xpos"][hb] + X @ mA["cam_pos"][ia],
+                        "mat": (X @ so3.quat_to_mat(mA["cam_quat"][ia])).ravel()}[what]
+            else:
+                pred = {"pos": dB["xpos"][hb] + X @ mA["light_pos"][ia], "dir": X @ mA["light_dir"][ia]}[what]
+            if fused and close(pred, ob[k], 1e-9)[0]:
+                confirmed.add((ok_kind, nm))
+                P.count("cam_light_pose_reset_confirmed")
+                return ok_kind
+            return ok_kind + "-not-pose-reset"
+        if ok_kind == "sensor":
+            i = names(mA, "sensor")[nm]
+            for tf, idf in (("sensor_objtype", "sensor_objid"), ("sensor_reftype", "sensor_refid")):
+                if int(mA[tf][i]) == E.mjOBJ_CAMERA and ("cam", mA.name(E.mjOBJ_CAMERA, int(mA[idf][i]))) in confirmed:
+                    P.count("sensor_observing_confirmed_camera_not_repeated")
+                    return None
+        return ok_kind
+    return classify
+
+
+def compare_traj(P, L, mA, mB, tol, kind, wit, seed, sens=1e-13, classify=None, only=None):
+    """classify(k, oa, ob, dA, dB) -> signature suffix of a differing observable k (None: do not report); only(k) -> whether the
+    observable takes part in the comparison at all"""
     dA, dB = mA.make_data(), mB.make_data()
     init_state(mA, dA, seed)
     init_state(mB, dB, seed)
@@ -391,15 +633,18 @@ def compare_traj(P, L, mA, mB, tol, kind, wit, seed, sens=1e-13):
                     return worst
                 P.note_max("perturbation_growth", amp / sens)
             seen = set()
-            for k in oa:
-                if k not in ob:
+            # cameras and lights first: a sensor that observes a camera is classified after the camera itself
+            for k in sorted(oa, key=lambda k_: (not k_.startswith(("cam:", "light:")), k_)):
+                if k not in ob or (only is not None and not only(k)):
                     continue
                 ok, err = close(oa[k], ob[k], tol + 20 * amp, quat=k.endswith(":quat"))
                 if not ok or not np.all(np.isfinite(oa[k])):
                     if not np.all(np.isfinite(oa[k])) and not np.all(np.isfinite(ob[k])):
                         P.count("both_diverged")
                         return worst
-                    ok_kind = k.split(":")[0]
+                    ok_kind = classify(k, oa, ob, dA, dB) if classify else k.split(":")[0]
+                    if ok_kind is None:
+                        continue
                     if ok_kind not in seen:
                         seen.add(ok_kind)
                         P.violation("trajectory-differs:%s:%s" % (kind, ok_kind),
@@ -415,6 +660,119 @@ def compare_traj(P, L, mA, mB, tol, kind, wit, seed, sens=1e-13):
             dP.free()
     P.note_max("traj_err_" + kind, worst)
     return worst
+
+
+# ---- pairs that carry a known finding: confirm the mechanism, keep verifying everything else ------------------------------
+
+def compare_replicate_multiaxis(P, L, mA, mB, mM, pair, tol, wit, seed):
+    """A = <replicate> with >= 2 non-zero Euler angles, B = written out as documented (T^i), M = written out with the mechanism
+    of finding C36-replicate-multi-axis-euler (replica i rotated by euler(i*e), offsets accumulated with those rotations).
+    1. COUNTERFACTUAL: A must equal M in every reference, compiled array and trajectory under the GENERIC label 'replicate' --
+       this confirms the mechanism and at the same time checks everything else about this replicate (names, suffixes, defaults,
+       actuator/sensor replication, host-body mass properties) exactly as in a single-axis pair.
+    2. A versus the documented B: only the frame-dependent compiled fields of the replicated top-level objects (body rb<i>, and
+       geom rl<i> on a body host) and the world poses of the objects of replica i are compared; a difference is the known finding
+       for replica index i >= 2 and a generic violation for replicas 0 and 1 (which the mechanism leaves exact; their world
+       poses are covered by step 1, M and B being identical there).  The remaining
+       A-vs-B differences (host chain mass properties, coupled motion of the rest of the tree) are consequences already verified
+       through step 1 and are not restated."""
+    wm = dict(wit, xmlMechanismTwin=pair["mech"])
+    if any(cat in DOWNSTREAM_CATS for cat in compare_references(P, mA, mM, "replicate", wm)):
+        P.count("downstream_skipped_after_wrong_reference")
+        return 0
+    ncmp = compare_models(P, mA, mM, tol, "replicate", wm)
+    compare_traj(P, L, mA, mM, tol, "replicate", wm, seed)
+    P.count("replicate_multiaxis_counterfactual_pairs")
+    nA = {k: names(mA, k) for k in ("body", "geom")}
+    nB = {k: names(mB, k) for k in ("body", "geom")}
+    idx = {}
+    ndiff = 0
+    for i, suf in enumerate(pair["suffixes"]):
+        for base in ("rb", "rc", "rg", "rcg", "rl", "rs", "rx"):
+            idx[base + suf] = i
+        for ok_, base, flds in (("body", "rb", ("body_pos", "body_quat")), ("geom", "rl", ("geom_pos", "geom_quat"))):
+            nm = base + suf
+            if nm not in nA[ok_] or nm not in nB[ok_]:
+                continue                      # (rl exists on body hosts only; a missing name was reported in step 1)
+            for fld in flds:
+                a, b = mA[fld][nA[ok_][nm]], mB[fld][nB[ok_][nm]]
+                ok, err = close(a, b, tol, quat=fld.endswith("_quat"))
+                ncmp += 1
+                if not ok:
+                    ndiff += 1
+                    P.violation("compiled-array-differs:%s:%s" % ("replicate-multiaxis" if i >= 2 else "replicate", fld),
+                                dict(wit, field=fld, object=nm, replica=i, a=a, b=b, err=err))
+    if ndiff:
+        P.count("replicate_multiaxis_confirmed")
+
+    # world poses / sensor values of the objects of replicas >= 2 (replicas 0 and 1 and everything else: step 1)
+    compare_traj(P, L, mA, mB, tol, "replicate-multiaxis", wit, seed, only=lambda k: idx.get(k.split(":")[1], -1) >= 2)
+    return ncmp
+
+
+def forces_at_start(L, m, seed):
+    """named-dof view of qfrc_gravcomp and qacc after mj_forward from qpos0 with the named initial velocities / controls"""
+    d = m.make_data()
+    init_state(m, d, seed)
+    d.forward()
+    out = {}
+    for nm, j in names(m, "jnt").items():
+        nv = {E.mjJNT_FREE: 6, E.mjJNT_BALL: 3}.get(int(m["jnt_type"][j]), 1)
+        da = int(m["jnt_dofadr"][j])
+        out[nm] = (d["qfrc_gravcomp"][da:da + nv].copy(), d["qacc"][da:da + nv].copy())
+    d.free()
+    return out
+
+
+def compare_fuse_gravcomp(P, L, mA, mB, gc_fused, tol, wit, seed, fc, only=None):
+    """fusestatic pair in which a fused body with mass has a gravcomp different from the body that absorbs it.
+    1. the gravity-compensation force itself: qfrc_gravcomp / qacc of A and B at the common start state.  A difference is reported
+       under the exact signature qfrc-gravcomp-differs:fusestatic-gravcomp only when the COUNTERFACTUAL confirms the mechanism
+       ("the fused mass takes the absorber's gravcomp"): A with body_gravcomp of exactly those fused bodies set to their
+       absorber's value must reproduce B's qfrc_gravcomp and qacc, and then also B's trajectories (generic label 'fusestatic',
+       gravity on) -- so nothing else about fusing is hidden by the finding.
+    2. as the audit asked: the original A and B with gravity switched off (gravcomp is then inert) must agree as well."""
+    fa, fb = forces_at_start(L, mA, seed), forces_at_start(L, mB, seed)
+    worst = 0.0
+    for nm in fa:
+        if nm in fb:
+            sc = 1 + max(np.abs(fa[nm][0]).max(), np.abs(fa[nm][1]).max())
+            worst = max(worst, float(np.abs(fa[nm][0] - fb[nm][0]).max() / sc), float(np.abs(fa[nm][1] - fb[nm][1]).max() / sc))
+    orig = mA["body_gravcomp"].copy()
+    for i, j in gc_fused.items():
+        mA["body_gravcomp"][i] = orig[j]
+    try:
+        fc_ = forces_at_start(L, mA, seed)
+        resid = 0.0
+        for nm in fc_:
+            if nm in fb:
+                sc = 1 + max(np.abs(fb[nm][0]).max(), np.abs(fb[nm][1]).max())
+                resid = max(resid, float(np.abs(fc_[nm][0] - fb[nm][0]).max() / sc), float(np.abs(fc_[nm][1] - fb[nm][1]).max() / sc))
+        det = dict(wit, fused_bodies={mA.name(E.mjOBJ_BODY, i): mA.name(E.mjOBJ_BODY, j) for i, j in gc_fused.items()},
+                   qfrc_gravcomp_qacc_A={k: v for k, v in fa.items()}, qfrc_gravcomp_qacc_B={k: v for k, v in fb.items()},
+                   err=worst, err_after_aligning_gravcomp=resid)
+        P.note_max("fuse_gravcomp_force_diff", worst)
+        P.note_max("fuse_gravcomp_counterfactual_residual", resid)
+        if resid > tol:
+            P.violation("qfrc-gravcomp-or-qacc-differs:fusestatic", det)      # not explained by the gravcomp mechanism
+        elif worst > tol:
+            P.count("fuse_gravcomp_confirmed")
+            P.violation("qfrc-gravcomp-differs:fusestatic-gravcomp", det)
+        # the counterfactual A' against B, gravity on, generic label
+        compare_traj(P, L, mA, mB, tol, "fusestatic", dict(wit, note="A with the fused bodies' gravcomp set to the absorber's"),
+                     seed, sens=1e-6, classify=fc, only=only)
+    finally:
+        mA["body_gravcomp"][:] = orig
+    gA, gB = mA.opt["gravity"].copy(), mB.opt["gravity"].copy()
+    mA.opt["gravity"][:] = 0
+    mB.opt["gravity"][:] = 0
+    try:
+        compare_traj(P, L, mA, mB, tol, "fusestatic", dict(wit, note="gravity set to zero in both models"), seed, sens=1e-6,
+                     classify=fc, only=only)
+    finally:
+        mA.opt["gravity"][:] = gA
+        mB.opt["gravity"][:] = gB
+    P.count("fuse_gravcomp_pairs")
 
 
 # ---- mj_setConst --------------------------------------------------------------------------------------------------
@@ -571,6 +929,115 @@ def run_setconst(P, L, c):
     dA.free()
 
 
+WRAP_MSG = re.compile(r"geom '([^']+)' in tendon (\d+), wrap (\d+) is not sphere or cylinder")
+
+
+def strip_geom_wraps(xml):
+    root = ET.fromstring(xml)
+    for t in root.iter("spatial"):
+        for g in t.findall("geom"):
+            t.remove(g)
+    return ET.tostring(root, encoding="unicode")
+
+
+XBODY_MSG = re.compile(r"unrecognized name '([^']+)' of (?:sensorized )?object\s+Element name '([^']+)'")
+
+
+def drop_xbody_sensor(xml, sensor, body):
+    """remove the named sensor if its objtype/reftype 'xbody' names `body`; None when there is no such sensor"""
+    root = ET.fromstring(xml)
+    sec = root.find("sensor")
+    for el in list(sec) if sec is not None else ():
+        if el.get("name") == sensor and any(el.get(tf) == "xbody" and el.get(nf) == body
+                                            for tf, nf in (("objtype", "objname"), ("reftype", "refname"))):
+            sec.remove(el)
+            return ET.tostring(root, encoding="unicode")
+    return None
+
+
+def load_fused_twin(P, L, mA, pair, wit):
+    """compile B (fusestatic=true).  Two known findings make the compiler REJECT B although A compiles; each is recognised only
+    after a counterfactual / structural confirmation, and the pair is then continued on a minimally edited twin (same edit in A
+    and B) so that everything else about fusing is still verified.  -> (mA, mB) or None (unexplained rejection: generic signature)
+
+    * C36-fusestatic-stale-site-ids (stale name->index maps): "geom 'X' in tendon t, wrap k is not sphere or cylinder" although X IS a sphere or cylinder
+      in the unfused model -- the wrap's geom is looked up through the stale name->index map and a different geom comes back.
+      Edit: the geom wraps are removed.  Confirmation, on the wrap-free twin: the geom that sits at X's ORIGINAL index in the fused
+      model is a different geom, neither sphere nor cylinder.  The trial resolution inside FuseStatic swallows the same spurious
+      error and then refuses to fuse that body, so with the wraps present the fuse decisions (hence the final geom order) can
+      differ from the wrap-free twin and the index test can miss; then the weaker structural facts have to do: the message is
+      FALSE about X, it appears only with fusestatic=true, the wrap-free pair compiles, and fusing did re-order the geom list (the
+      precondition of the mechanism: without a re-ordering the stale map is still correct).
+    * C36-fusestatic-xbody-sensor-reference: "unrecognized name 'b' of (sensorized) object" for a sensor whose objtype/reftype is
+      'xbody': the is-it-referenced test removes the body name from the BODY name map only, xbody look-ups do not use that map,
+      the static body is fused and the sensor's body no longer exists.  Edit: that sensor is removed.  Confirmation: the body named
+      in the message has no joint, the sensor named in the message refers to it as 'xbody', and once the sensor is gone the model
+      compiles and does NOT contain that body any more -- i.e. it is fused, which is what left the reference dangling."""
+    xa, xb = pair["A"], pair["B"]
+    wrap = None
+    xbody = []
+    err0 = wit["error"]
+    mB = None
+    for _ in range(6):
+        try:
+            mB = L.load_xml_string(xb)
+            break
+        except drv.MjError as e:
+            msg = str(e)
+        mt = WRAP_MSG.search(msg)
+        if mt and wrap is None:
+            gA = names(mA, "geom")
+            X = mt.group(1)
+            if X in gA and int(mA["geom_type"][gA[X]]) in (E.mjGEOM_SPHERE, E.mjGEOM_CYLINDER):
+                wrap = (X, msg)
+                xa, xb = strip_geom_wraps(xa), strip_geom_wraps(xb)
+                continue
+        mt = XBODY_MSG.search(msg)
+        if mt and (mt.group(2), mt.group(1)) not in xbody:
+            body, sensor = mt.group(1), mt.group(2)
+            bA = names(mA, "body")
+            xa2, xb2 = drop_xbody_sensor(xa, sensor, body), drop_xbody_sensor(xb, sensor, body)
+            if body in bA and int(mA["body_jntnum"][bA[body]]) == 0 and xa2 and xb2:
+                xbody.append((sensor, body))
+                xa, xb = xa2, xb2
+                wit.setdefault("xbody_errors", []).append(msg)
+                continue
+        return None
+    if mB is None:
+        return None
+    try:
+        mA2 = L.load_xml_string(xa)
+    except drv.MjError:
+        mB.free()
+        return None
+    if wrap:
+        X = wrap[0]
+        j = names(mA2, "geom")[X]                      # original index of X (A is the unfused twin)
+        by_index = j < mB.n("ngeom") and mB.name(E.mjOBJ_GEOM, j) != X and \
+            int(mB["geom_type"][j]) not in (E.mjGEOM_SPHERE, E.mjGEOM_CYLINDER)
+        reordered = [mA2.name(E.mjOBJ_GEOM, i) for i in range(mA2.n("ngeom"))] != [mB.name(E.mjOBJ_GEOM, i) for i in range(mB.n("ngeom"))]
+        if not (by_index or reordered):
+            mA2.free()
+            mB.free()
+            return None
+        P.count("wrap_rejection_stale_name_map_confirmed" + ("" if by_index else "_by_reordering_only"))
+        P.violation("one-spelling-rejected:fusestatic:wrap-geom-type-via-stale-name-map",
+                    dict(wit, error=wrap[1], intended_geom=X, geom_now_at_its_original_index=mB.name(E.mjOBJ_GEOM, j) if j < mB.n("ngeom") else None))
+    if any(body in names(mB, "body") for sensor, body in xbody):
+        mA2.free()
+        mB.free()
+        return None
+    for sensor, body in xbody:
+        P.count("xbody_sensor_rejection_confirmed")
+        P.violation("one-spelling-rejected:fusestatic:xbody-sensor-on-static-body", dict(wit, sensor=sensor, body=body))
+    pair["A"], pair["B"] = xa, xb
+    wit["xmlA"], wit["xmlB"] = xa, xb
+    wit["note_edited_twin"] = ("continued on an edited twin after the rejection: " + ("geom wraps removed; " if wrap else "")
+                               + ("sensors removed: %s" % xbody if xbody else ""))
+    wit["error"] = err0
+    return mA2, mB
+
+
 # ---- worker -------------------------------------------------------------------------------------------------------
 
 def worker(c):
@@ -603,22 +1070,32 @@ def worker(c):
             mB = L.load_xml_string(pair["B"])
     except drv.MjError as e:
         wit["error"] = str(e)
-        P.violation("one-spelling-rejected:%s:B" % kind, wit)
-        return P.result()
+        retry = load_fused_twin(P, L, mA, pair, wit) if kind == "fusestatic" else None
+        if retry is None:
+            P.violation("one-spelling-rejected:%s:B" % kind, wit)
+            mA.free()
+            return P.result()
+        mA.free()
+        mA, mB = retry
     napp = sum(v for k, v in pair["counts"].items())
     if kind == "fusestatic":
         napp = mA.n("nbody") - mB.n("nbody")
         pair["counts"] = {"fusestatic:bodies-fused": napp} if napp else {}
-        # a fused body whose gravcomp differs from the body that absorbs it: own label (finding C36-fusestatic-gravcomp)
+        # fused massive bodies whose gravcomp differs from the (non-world) body that absorbs them (finding C36-fusestatic-gravcomp)
+        gc_fused = {}
+        absorbers = set()
         nbA, nbB = names(mA, "body"), names(mB, "body")
         for nm, i in nbA.items():
             if nm not in nbB:
                 j = i
                 while mA.name(E.mjOBJ_BODY, j) not in nbB:
                     j = int(mA["body_parentid"][j])
+                if float(mA["body_mass"][i]) > 0:
+                    absorbers.add(j)
                 if float(mA["body_gravcomp"][i]) != float(mA["body_gravcomp"][j]) and float(mA["body_mass"][i]) > 0 and j > 0:
-                    pair["label"] = "fusestatic-gravcomp"
-                    pair["counts"]["fusestatic:gravcomp-differs"] = 1
+                    gc_fused[i] = j
+        if gc_fused:
+            pair["counts"]["fusestatic:gravcomp-differs"] = 1
     if kind == "discardvisual":
         napp = mA.n("ngeom") - mB.n("ngeom")
         pair["counts"] = {"discardvisual:geoms-removed": napp} if napp else {}
@@ -638,12 +1115,47 @@ def worker(c):
     tol = pair["tol"]
     label = pair.get("label", kind)
     ncmp = 0
-    if compare_references(P, mA, mB, label, wit):
-        # everything downstream (lengths, moments, sensor values, forces) is then a consequence of the wrong reference
-        P.count("downstream_skipped_after_wrong_reference")
+    mM = None
+    if pair.get("mech"):
+        try:
+            mM = L.load_xml_string(pair["mech"])
+        except drv.MjError as e:
+            P.count("replicate_mechanism_twin_rejected")     # cannot confirm: the pair is then judged like any other replicate pair
+    if mM is not None:
+        ncmp = compare_replicate_multiaxis(P, L, mA, mB, mM, pair, tol, wit, c["rseed"])
+        mM.free()
     else:
-        ncmp = compare_models(P, mA, mB, tol, label, wit)
-        compare_traj(P, L, mA, mB, tol, label, wit, c["rseed"], sens=(1e-6 if kind == "fusestatic" else 1e-13))
+        bad = compare_references(P, mA, mB, label, wit)
+        if any(cat in bad for cat in DOWNSTREAM_CATS):
+            # everything downstream (lengths, moments, forces) is then a consequence of the wrong reference
+            P.count("downstream_skipped_after_wrong_reference")
+        else:
+            ncmp = compare_models(P, mA, mB, tol, label, wit)
+            fc = fuse_classifier(P, mA, mB) if kind == "fusestatic" else None
+            if kind == "fusestatic" and int(mA.opt["integrator"]) == E.mjINT_IMPLICITFAST and \
+                    standalone_free_bodies(mA) != standalone_free_bodies(mB):
+                # documented integrator rule (ASSUMPTIONS): compare this pair under 'implicit', where the rule does not apply
+                P.count("fusestatic_implicitfast_standalone_rule_pairs")
+                mA.opt["integrator"] = E.mjINT_IMPLICIT
+                mB.opt["integrator"] = E.mjINT_IMPLICIT
+            only = None
+            left_out = set(bad.get("sensor-object", ()))
+            P.count("sensors_left_out_after_wrong_reference", len(left_out))
+            if kind == "fusestatic":
+                # objtype/reftype "body" is the INERTIAL frame of the body (xipos/ximat); for a body that absorbed mass it moves
+                # with the merged inertia (ASSUMPTIONS): such sensors are not comparable ("xbody" sensors are)
+                for nm, i in names(mA, "sensor").items():
+                    for tf, idf in (("sensor_objtype", "sensor_objid"), ("sensor_reftype", "sensor_refid")):
+                        if int(mA[tf][i]) == E.mjOBJ_BODY and int(mA[idf][i]) in absorbers and nm not in left_out:
+                            left_out.add(nm)
+                            P.count("sensors_left_out_inertial_frame_of_absorber")
+            if left_out:
+                only = lambda k, _b=left_out: not (k.startswith("sensor:") and k.split(":")[1] in _b)
+            if kind == "fusestatic" and gc_fused:
+                compare_fuse_gravcomp(P, L, mA, mB, gc_fused, tol, wit, c["rseed"], fc, only)
+            else:
+                compare_traj(P, L, mA, mB, tol, label, wit, c["rseed"], sens=(1e-6 if kind == "fusestatic" else 1e-13),
+                             classify=fc, only=only)
     for k, v in pair["counts"].items():
         P.count(k, v)
     if napp:
